@@ -2,6 +2,8 @@
 """C20 — a satisfiable byte-range request returns exactly the requested slice."""
 from __future__ import annotations
 
+import os
+
 import re
 
 from core import hx, exc_name
@@ -58,6 +60,9 @@ def cases(rng, tier):
 			l = rng.choice((n - 1, min(n - 1, f + 1)))
 		vflags = rng.choice((DEFAULT, DEFAULT, (1, 1, 1, 1, 1, 1, 1), (1, 1, 1, 1, 0, 1, 1)))
 		yield ('r', vflags, n, b'bytes=%d-%d' % (f, l), rng.randrange(len(ETAGS) * len(LASTMODS)))
+		if rng.random() < 0.2:
+			# the same positions written with leading zeros (1*DIGIT)
+			yield ('r', DEFAULT, n, b'bytes=%s-%s' % (b'%03d' % f if rng.random() < 0.7 else b'%d' % f, b'%04d' % l), 0)
 	for _ in range(k):
 		n = rng.choice((40, 100, 1000, 4096))
 		cnt = rng.choice((2, 2, 3, 4))
@@ -120,8 +125,15 @@ def run(flags, n, v, var=0):
 	if var % 5 == 4:
 		resp.headers['Content-Length'] = str(n + 7)      # a stale length left on the message: prepare() computes its own
 	# the representation is supplied in one of three ways: assigned, written (file position at the end), assigned and partly read
-	mode = (n + len(v)) % 3
-	if mode == 1:
+	mode = (n + len(v)) % 4
+	if mode == 3:
+		import tempfile
+		f = tempfile.NamedTemporaryFile(dir=os.environ.get('VERIF_SCRATCH') or None)      # a real, named file (closed and removed when collected)
+		f.write(body(n))
+		f.flush()
+		f.seek(0)
+		resp.body = f
+	elif mode == 1:
 		resp.body.write(body(n))
 	else:
 		resp.body = body(n)
